@@ -201,7 +201,11 @@ func configInt(v interface{}) (int, bool) {
 }
 
 func parseGzipConfig(cfg map[string]interface{}) (int, int, []string, error) {
-	level, ok := configInt(cfg["level"])
+	// level and min_size have documented defaults (5 and 1024): an omitted key takes its default
+	level, ok := 5, true
+	if v, present := cfg["level"]; present {
+		level, ok = configInt(v)
+	}
 	if !ok {
 		return 0, 0, nil, fmt.Errorf("expected level for gzip config")
 	}
@@ -210,7 +214,10 @@ func parseGzipConfig(cfg map[string]interface{}) (int, int, []string, error) {
 		return 0, 0, nil, fmt.Errorf("compression level must be between -1 and 9, got %d", level)
 	}
 
-	minSize, ok := configInt(cfg["min_size"])
+	minSize, ok := 1024, true
+	if v, present := cfg["min_size"]; present {
+		minSize, ok = configInt(v)
+	}
 	if !ok {
 		return 0, 0, nil, fmt.Errorf("expected min_size for gzip config")
 	}
